@@ -152,6 +152,7 @@ def prop_C08(run):
     import rules_idx, rules_fix
     rules_idx.gates(run)
     rules_fix.fix3(run)
+    rules_fix.first_pass_verdict(run)
     rules_idx.tab_idx(run)
     rules_idx.candidates_all_matched(run)
     rules_idx.static_known(run)
